@@ -59,6 +59,11 @@ CHECKS = {
    text="CrashRecovery.tla has one action per durable operation of a validator in the order measured on the real code (own vote WAL fsyncs, SaveBlock, #ENDHEIGHT, writeBlockWithState, trie flush, writeHead, consensus-state batch) and the recovery as implemented (head repair, Store.Load or genesis, catchupReplay iff #ENDHEIGHT(h-1) and not #ENDHEIGHT(h)); TLC checks store consistency for every crash point in both cache modes and lists what the restart computes and where published votes are left unprotected. The harness kills a REAL validator (real receiveRoutine under the gate, real file WAL, counting database) before EVERY durable operation of a 3-height run (about 65 cuts x 2 WAL tail variants x 2 cache modes), restarts it on the surviving files through NewBlockChain / Store.Load / OnStart and lets it continue against the live network: it must start, its stored blocks must be the committed ones, no post-restart signature request may conflict with a pre-crash published message, it must catch up, and the restart's head / consensus state must be what the specification computes for that crash point. Conflicts are accepted as KNOWN only in the recorded design-level windows (after #ENDHEIGHT; head rewound in memory mode).",
    note="Restart goes straight to consensus with WAL catch-up (fast sync off); honest, timely network after the restart; empty blocks; second crashes during recovery and WAL corruption at the tail are C15's / not enumerated here. Trusted: TLC, the driver's counting wrappers (a cut = the operation that did not happen).",
    ref="§4-C05"),
+ "C17": dict(
+   engine="pool", category="model_checking", technique="TLA+ specification (TxPool.tla, set-valued transcription of mainchain/tx_pool) model-checked with TLC; every transition replayed into the real TxPool; seeded random real runs validated by TLC",
+   text="TxPool.tla transcribes add/validateTx/enqueueTx/promoteTx/removeTx, runReorg (reset incl. reinjection, promoteExecutables, demoteUnexecutables, truncatePending, truncateQueue), SetGasPrice, lifetime eviction and journal load/rotate as operators returning every outcome the code may produce. TLC checks the clauses of the statement on 13 configurations (2-4 accounts, <= 3 nonces, 1-3 prices, 8 transaction kinds, limits 1-3, depth 3-9): gap-free from the state nonce, individually affordable, block gas limit, pending/queued disjoint, indexed exactly once, mined gone, limits, rejected submission is a no-op, price bump, locals exempt, AddLocal makes the sender local, journal give-back. Every transition is executed from a fresh real pool over a stub chain and compared on result, content, locals and journal, and the clauses are evaluated directly on the real pool against the real chain state; random runs of 40-80 operations are trace-validated by TLC. Seven deviations of the code (inherited from go-ethereum) are recorded as known findings; with the Fix* switches on TLC shows the strict reading holds.",
+   note="Trusted: TLC, the driver's mapping of transactions and its stub chain, secp256k1; the price heap is abstracted to the set of remote transactions, heartbeat times to nondeterminism; critical sections are driven one at a time (no true concurrency between the reorg loop and submissions); small integers.",
+   ref="§4-C17"),
 }
 
 NOT_YET = {
